@@ -36,12 +36,44 @@ STRENGTHENED = {
     ("C18", "1"): "C18 now forces even boxes without centring and checks the score map's shape and argmax in the result file",
     ("C18", "2"): "C18 now plants in a tile with non-zero offset, rotation in the first inner-job chunk, for -p + memory-limited split runs",
 }
+STRENGTHENED2 = {
+    ("C01", "1"): "C01 now runs two-search sessions (different templates of one shape, rotations spread over two reused worker processes)",
+    ("C01", "2"): "C01 now scales the target's intensities (1e-9 .. 1e3): the code's absolute eps guards must not change a value",
+    ("C02", "1"): "C02 now uses soft masks and has an inner-jobs-only stream (schedule (1,k) vs (1,1), every voxel compared)",
+    ("C03", "1"): "C03 now plants copies under interpolated (non-grid) rotations produced by the backend's own rigid_transform, on a non-zero background (FLC, default mask)",
+    ("C09", "1"): "C09 filter sets now contain near misses of present names (longer / shorter / other case)",
+    ("C12", "1"): "C12 compositions now also hand the sampling rate over at call time (overriding constructor values)",
+    ("C13", "1"): "C13 shared-memory clause now covers every memory layout (Fortran order, transposed / strided / reversed views)",
+    ("C14", "2"): "C14 now asks for schedules with the memory limit exactly on the estimate of a non-dividing split",
+    ("C16", "2"): "C16 scenarios now include the score-map analyzer's use_memmap=True mode",
+    ("C17", "1"): "C17 bounds now include intervals pinned away from zero ((c, c), c != 0)",
+    ("C18", "1"): "C18 now runs the CLI with job counts that do not divide the rotation count, planting a rotation from the remainder",
+}
+import sys
+ROUND = int(sys.argv[1]) if len(sys.argv) > 1 else 1
+ROOT = "/tmp/seed" if ROUND == 1 else "/tmp/seed2"
+if ROUND == 2:
+    STRENGTHENED = STRENGTHENED2
+    first = {}
+    for d in sorted(glob.glob(ROOT + "/C*/out/[12]")):
+        rf = os.path.join(d, "result_first.json")
+        if os.path.exists(rf):
+            t = open(rf).read()
+            try:
+                r = json.loads(t[t.index("{"):])
+            except Exception:
+                continue
+            first[(d.split("/")[3], d.split("/")[5])] = {
+                "confirm": {k: r.get(k) for k in ("confirmed", "demo_clean_rc", "demo_patched_rc", "tests_ok", "patch_applies", "tests_with_patch")},
+                "checks": {c: {"rc": v["rc"], "violation": any(l.startswith("VIOLATION") for l in v["violation_lines"]),
+                               "no_failing_input": any("no-failing-input-found" in l for l in v["violation_lines"])}
+                           for c, v in r.get("checks", {}).items()}}
 rows = []
-for d in sorted(glob.glob("/tmp/seed/C*/out/[12]")):
+for d in sorted(glob.glob(ROOT + "/C*/out/[12]")):
     pid, n = d.split("/")[3], d.split("/")[5]
     if not os.path.exists(os.path.join(d, "patch.diff")):
         continue
-    out = os.path.join(V, "seeded", f"{pid}_{n}")
+    out = os.path.join(V, "seeded", f"{pid}_{int(n) + 2 * (ROUND - 1)}")
     os.makedirs(out, exist_ok=True)
     for f in ("patch.diff", "demo.py", "notes.md"):
         if os.path.exists(os.path.join(d, f)):
@@ -63,6 +95,7 @@ for d in sorted(glob.glob("/tmp/seed/C*/out/[12]")):
                     if any(l.startswith("VIOLATION") and "no-failing-input-found" not in l for l in v["violation_lines"])]
     meta = {
         "property": pid,
+        "round": ROUND,
         "origin": "fresh sub-agent given only the property text and its own scratch worktree of /repo (nothing from /verif)",
         "files_touched": sorted(set(re.findall(r"^\+\+\+ b/(\S+)", open(os.path.join(d, "patch.diff")).read(), flags=re.M))),
         "what_it_needs_to_manifest": " ".join(notes.split())[:1500],
